@@ -77,8 +77,10 @@ def install(profile="debug"):
 
 
 def build_and_install(profile="debug"):
+    global installed
     build(profile)
     install(profile)
+    installed = True
 
 
 def force_pure():
@@ -122,3 +124,49 @@ def load_pure(modname):
             else:
                 sys.modules[key] = val
     return m
+
+
+# ---------------------------------------------------------------------------
+# switching a process between the Rust functions and their pure-Python twins
+
+_TWIN_NAMES = {
+    "objects": ["parse_tree", "sorted_tree_items"],
+    "pack": ["apply_delta", "bisect_find_sha", "create_delta"],
+    "diff_tree": ["_count_blocks", "_is_tree", "_merge_entries"],
+}
+_twins = {}  # (module, name) -> {"rust": fn, "pure": fn}
+installed = False
+
+
+def _collect_twins():
+    import importlib
+
+    if _twins:
+        return
+    for modname, names in _TWIN_NAMES.items():
+        real = importlib.import_module(f"dulwich.{modname}")
+        pure = load_pure(modname)
+        for n in names:
+            r, p = getattr(real, n), getattr(pure, n)
+            if r is p:
+                raise HarnessError(f"dulwich.{modname}.{n}: no distinct Rust implementation loaded")
+            _twins[(modname, n)] = {"rust": r, "pure": p}
+
+
+def use_twins(mode):
+    """Make every loaded dulwich module use the 'rust' or the 'pure' implementation of the twin functions.
+
+    Any module attribute that *is* one of the twin function objects is rebound
+    (``from dulwich.pack import apply_delta`` copies included).
+    """
+    _collect_twins()
+    for (modname, n), impls in _twins.items():
+        want = impls[mode]
+        others = [f for m, f in impls.items() if m != mode]
+        for name, mod in list(sys.modules.items()):
+            if mod is None or not name.startswith("dulwich.") or name.startswith("dulwich._vf_pure_"):
+                continue
+            for attr, val in list(vars(mod).items()):
+                if any(val is o for o in others):
+                    setattr(mod, attr, want)
+    return mode
